@@ -71,6 +71,10 @@ int Var::div(Var &var_d, Var &var_s)
 {
   if (var_d.type == VAR_INT && var_s.type == VAR_INT)
   {
+    // Division by zero (and INT64_MIN / -1) has no value and traps.
+    if (var_s.value_int == 0) { return -1; }
+    if (var_s.value_int == -1 && var_d.value_int == INT64_MIN) { return -1; }
+
     value_int = var_d.value_int / var_s.value_int;
   }
     else
@@ -86,6 +90,10 @@ int Var::mod(Var &var_d, Var &var_s)
 {
   var_d.to_int();
   var_s.to_int();
+
+  // Modulo by zero (and INT64_MIN % -1) has no value and traps.
+  if (var_s.value_int == 0) { return -1; }
+  if (var_s.value_int == -1 && var_d.value_int == INT64_MIN) { return -1; }
 
   value_int = var_d.value_int % var_s.value_int;
 
